@@ -180,6 +180,11 @@ func trivialCond(c *Expr) bool {
 	return k(c.Args[0]) && k(c.Args[1])
 }
 
+// isRangeOk: the ok result of a range-over-map/string step.
+func isRangeOk(c *Expr) bool {
+	return c != nil && c.Op == "extract" && c.Name == "0" && len(c.Args) == 1 && c.Args[0].Op == "un" && c.Args[0].Name == "next "
+}
+
 func (a *FA) PathConds(b *ssa.BasicBlock) []*Expr {
 	var out []*Expr
 	for _, i := range a.ifs {
@@ -191,7 +196,7 @@ func (a *FA) PathConds(b *ssa.BasicBlock) []*Expr {
 		if pair[0][b.Index] {
 			out = append(out, c)
 		}
-		if pair[1][b.Index] {
+		if pair[1][b.Index] && !isRangeOk(c) { // "the map / string iterator is exhausted" says nothing about any value
 			out = append(out, negate(c))
 		}
 	}
